@@ -1,7 +1,7 @@
 (* C18 — lemmas about the Sentry event model of SentryDefs.v.  A configuration that passes the
    decidable check [sentry_cfg_goodb] IS the specified configuration (up to the two sdk strings), so
    the results are proved for [spec_cfg] and transported. *)
-From Coq Require Import List NArith ZArith Bool Lia ZifyN.
+From Coq Require Import List NArith ZArith Bool Lia ZifyN FinFun Arith.
 Require Import QtlVerif.JsonDefs QtlVerif.JsonProofs QtlVerif.SentryDefs.
 Import ListNotations.
 Local Open Scope N_scope.
@@ -471,4 +471,136 @@ Proof.
   apply andb_false_intro2. change (s_attrs lost_msg) with [(k_appname, JArr [JNum 1%Z; JNum 2%Z])].
   cbn [attrs_conserved has_key existsb]. change (route_of k_appname spec_routes) with (Some (STag, k_app_name)).
   cbn [scalarb]. rewrite Hslot, Hex. reflexivity.
+Qed.
+
+(* ---------- the attribute store: what the handlers of a pipeline leave on the message ---------- *)
+Lemma look_app k x y : look k (x ++ y) = match look k x with Some v => Some v | None => look k y end.
+Proof. induction x as [|[k' v'] x IH]; [reflexivity|]. cbn [app look]. destruct (seqb k k'); [reflexivity|exact IH]. Qed.
+Lemma look_last_app k a l : look_last k (a ++ l) = match look_last k l with Some v => Some v | None => look_last k a end.
+Proof. unfold look_last. rewrite rev_app_distr. apply look_app. Qed.
+Lemma filter_rev' {A} (f : A -> bool) l : filter f (List.rev l) = List.rev (filter f l).
+Proof.
+  induction l as [|x l IH]; [reflexivity|]. cbn [List.rev filter]. rewrite filter_app, IH. cbn [filter].
+  destruct (f x); [reflexivity|]. apply app_nil_r.
+Qed.
+Lemma look_filter_remove k k' l : look k (filter (fun kv => negb (seqb k' (fst kv))) l) = if seqb k k' then None else look k l.
+Proof.
+  induction l as [|[k2 v2] l IH]; [destruct (seqb k k'); reflexivity|].
+  cbn [filter fst]. destruct (seqb_spec k' k2) as [->|N2]; cbn [negb].
+  - rewrite IH. cbn [look]. destruct (seqb k k2); reflexivity.
+  - cbn [look]. destruct (seqb_spec k k2) as [->|]; [|exact IH].
+    destruct (seqb_spec k2 k') as [->|]; [contradiction|reflexivity].
+Qed.
+(* setAttribute: the name now has the new value, every other name keeps its value *)
+Theorem store_set k' v a k : look_last k (apply_op a (OSet k' v)) = if seqb k k' then Some v else look_last k a.
+Proof. cbn [apply_op]. rewrite look_last_app. unfold look_last at 1. cbn [List.rev app look]. destruct (seqb k k'); reflexivity. Qed.
+(* updateAttributes (an attribute handler): a name of the hash has the value of the hash - an older value of that
+   name is REPLACED - every other name keeps its value *)
+Theorem store_update l a k : look_last k (apply_op a (OUpdate l)) = match look_last k l with Some v => Some v | None => look_last k a end.
+Proof. cbn [apply_op]. apply look_last_app. Qed.
+Theorem store_set_all l a k : look_last k (apply_op a (OSetAll l)) = look_last k l.
+Proof. reflexivity. Qed.
+Theorem store_remove k' a k : look_last k (apply_op a (ORemove k')) = if seqb k k' then None else look_last k a.
+Proof. cbn [apply_op]. unfold look_last. rewrite <- filter_rev'. apply look_filter_remove. Qed.
+Lemma apply_ops_snoc a ops o : apply_ops a (ops ++ [o]) = apply_op (apply_ops a ops) o.
+Proof. unfold apply_ops. rewrite fold_left_app. reflexivity. Qed.
+Lemma with_ops_attrs m ops : s_attrs (with_ops m ops) = apply_ops (s_attrs m) ops.
+Proof. reflexivity. Qed.
+
+(* the current value of a name (QHash::value) is one particular setting with no later setting of the same name *)
+Lemma look_last_decompose k : forall l v, look_last k l = Some v -> exists pre post, l = pre ++ (k, v) :: post /\ has_key k post = false.
+Proof.
+  induction l as [|[k2 v2] l IH] using rev_ind; intros v H; [discriminate|].
+  rewrite look_last_app in H. unfold look_last at 1 in H. cbn [List.rev app look] in H.
+  destruct (seqb_spec k k2) as [->|N2].
+  - injection H as <-. exists l, []. split; reflexivity.
+  - destruct (IH v H) as (pre & post & -> & Hk). exists pre, (post ++ [(k2, v2)]). split.
+    + rewrite <- app_assoc. reflexivity.
+    + unfold has_key in *. rewrite existsb_app, Hk. cbn [existsb fst orb].
+      destruct (seqb_spec k k2) as [->|]; [contradiction|reflexivity].
+Qed.
+Lemma look_last_none_not_key k l : look_last k l = None -> not_key k l.
+Proof.
+  induction l as [|[k2 v2] l IH] using rev_ind; intros H; [constructor|].
+  rewrite look_last_app in H. unfold look_last at 1 in H. cbn [List.rev app look] in H.
+  destruct (seqb_spec k k2) as [->|N2]; [discriminate|].
+  unfold not_key. apply Forall_app. split; [apply IH, H|]. constructor; [|constructor]. cbn [fst]. intros ->. contradiction.
+Qed.
+
+Section Current.
+Variables (sdkn sdkv qtver eid : str).
+(* whatever sequence of settings produced the store: the event carries, for every name, exactly the CURRENT value -
+   under extra (any other name) or in the dedicated slot and not under extra (routed name) *)
+Theorem current_value_conserved m k v : look_last k (s_attrs m) = Some v ->
+  (is_routed k = false -> get2 (event_members sdkn sdkv qtver eid m) k_extra k = Some (sort_keys v))
+  /\ (forall sl name, In (sl, (name, k)) spec_routes ->
+        slot_get (event_members sdkn sdkv qtver eid m) sl name = Some (JStr (to_qstring v))
+        /\ get2 (event_members sdkn sdkv qtver eid m) k_extra k = None).
+Proof.
+  intros H. destruct (look_last_decompose k _ v H) as (pre & post & Ea & Hk). split.
+  - apply (other_attribute_in_extra sdkn sdkv qtver eid m k v pre post Ea Hk).
+  - intros sl name Hin. split.
+    + apply (routed_attribute_in_slot sdkn sdkv qtver eid m sl name k v pre post Hin Ea Hk).
+    + apply routed_not_in_extra. exact (routed_in_spec sl name k Hin).
+Qed.
+(* a name that is not (or no longer: removeAttribute, a scoped pipeline that has ended) on the message and is not one
+   of the three built-in members of extra does not appear under extra *)
+Theorem absent_name_not_in_extra m k : look_last k (s_attrs m) = None ->
+  k <> k_line -> k <> k_file -> k <> k_thread_id -> get2 (event_members sdkn sdkv qtver eid m) k_extra k = None.
+Proof.
+  intros H N1 N2 N3. unfold get2. rewrite look_extra, look_go. apply last_val_absent. unfold ev_extra.
+  apply look_last_none_not_key in H.
+  unfold not_key in *. repeat (apply Forall_app; split).
+  - constructor; [|constructor]. cbn [fst]. congruence.
+  - destruct (is_nil _); constructor; [|constructor]. cbn [fst]. congruence.
+  - constructor; [|constructor]. cbn [fst]. congruence.
+  - apply not_key_filter. exact H.
+Qed.
+(* an attribute handler that runs last before the formatter: the event carries the value the handler gives for each
+   of its names - NOT an older value of that name, however it got onto the message (setAttribute, an earlier handler
+   of the same or of an enclosing pipeline) *)
+Theorem handler_override m ops h k v : look_last k h = Some v ->
+  (is_routed k = false -> get2 (event_members sdkn sdkv qtver eid (with_ops m (ops ++ [OUpdate h]))) k_extra k = Some (sort_keys v))
+  /\ (forall sl name, In (sl, (name, k)) spec_routes ->
+        slot_get (event_members sdkn sdkv qtver eid (with_ops m (ops ++ [OUpdate h]))) sl name = Some (JStr (to_qstring v))
+        /\ get2 (event_members sdkn sdkv qtver eid (with_ops m (ops ++ [OUpdate h]))) k_extra k = None).
+Proof.
+  intros H. apply current_value_conserved. rewrite with_ops_attrs, apply_ops_snoc, store_update, H. reflexivity.
+Qed.
+(* ... and a name the last handler does not mention keeps the value it had *)
+Theorem handler_keeps_other m ops h k : look_last k h = None ->
+  look_last k (s_attrs (with_ops m (ops ++ [OUpdate h]))) = look_last k (s_attrs (with_ops m ops)).
+Proof. intros H. rewrite !with_ops_attrs, apply_ops_snoc, store_update, H. reflexivity. Qed.
+End Current.
+
+(* ---------- the ids of a whole run, over all formatter objects ---------- *)
+Lemma strs_distinctb_NoDup l : NoDup l -> strs_distinctb l = true.
+Proof.
+  induction 1 as [|x r Hx _ IH]; [reflexivity|]. cbn [strs_distinctb]. rewrite IH, andb_true_r.
+  destruct (existsb (seqb x) r) eqn:E; [|reflexivity]. apply existsb_exists in E as (y & Hy & Ey).
+  apply seqb_eq in Ey. subst y. contradiction.
+Qed.
+Lemma strs_distinctb_sound l : strs_distinctb l = true -> NoDup l.
+Proof.
+  induction l as [|x r IH]; intros H; [constructor|]. cbn [strs_distinctb] in H. apply andb_true_iff in H as [H1 H2].
+  constructor; [|apply IH, H2]. intros Hin. apply negb_true_iff in H1.
+  assert (E : existsb (seqb x) r = true) by (apply existsb_exists; exists x; split; [exact Hin|apply seqb_refl]).
+  rewrite E in H1. discriminate.
+Qed.
+Theorem run_ids_ok draw objs : (forall i, draw i < 2 ^ 128) -> (forall i j, draw i = draw j -> i = j) ->
+  ids_ok_b (run_ids draw objs) = true /\ length (run_ids draw objs) = length objs.
+Proof.
+  intros Hb Hinj. split; [|unfold run_ids; rewrite map_length, seq_length; reflexivity].
+  unfold ids_ok_b. apply andb_true_iff. split.
+  - apply forallb_forall. intros s Hs. unfold run_ids in Hs. apply in_map_iff in Hs as (i & <- & _). apply id_hex32.
+  - apply strs_distinctb_NoDup. unfold run_ids. apply FinFun.Injective_map_NoDup; [|apply seq_NoDup].
+    intros i j E. apply Hinj. apply id_injective; [apply Hb|apply Hb|exact E].
+Qed.
+(* NOT a correct scheme: one base per process plus a count kept by each formatter object - two objects that have
+   formatted one event each have handed out the same id *)
+Theorem counter_ids_repeat base o1 o2 : o1 <> o2 -> ids_ok_b (counter_ids base [o1; o2]) = false.
+Proof.
+  intros N. unfold ids_ok_b, counter_ids. cbn [counter_ids_from count_eq].
+  apply Nat.eqb_neq in N. rewrite N. apply andb_false_intro2.
+  change (0 + 0) with 0. cbn [strs_distinctb existsb]. rewrite seqb_refl. reflexivity.
 Qed.
